@@ -332,7 +332,7 @@ func (c *FnCtx) frameObligations(fc *FuncContract, fr *Frame, r retInfo, entryEn
 func (c *FnCtx) axiomText(pkg string) string {
 	var b strings.Builder
 	for _, ax := range c.eng.cs.Axioms {
-		if c.skipAxiom == ax.Name {
+		if c.skipAxiom == ax.Name || ax.Manual {
 			continue
 		}
 		if !c.axiomRelevant(ax) {
@@ -500,7 +500,7 @@ func (c *FnCtx) axiomTextBefore(l *AxiomDef) string {
 		if ax == l {
 			break
 		}
-		if !c.axiomRelevant(ax) {
+		if ax.Manual || !c.axiomRelevant(ax) {
 			continue
 		}
 		s, err := c.axiomSMT(ax)
@@ -590,4 +590,36 @@ func (e *Engine) VerifyFinal(fd *FinalDef) *FuncResult {
 	}
 	res.Obls = []*Obligation{o}
 	return res
+}
+
+// useInstance evaluates one "use name(args)" clause: the body of the named axiom or lemma with its
+// parameters bound to the argument terms (a ground instance; sound because the axiom is assumed and a
+// lemma is proved separately, from what precedes it only).
+func (c *FnCtx) useInstance(use Clause, en *Env) (string, error) {
+	call, ok := use.E.(ECall)
+	if !ok {
+		return "", fmt.Errorf("use: expected name(args), got %s", use.Src)
+	}
+	var ax *AxiomDef
+	for _, a := range c.eng.cs.Axioms {
+		if a.Name == call.Fun {
+			ax = a
+		}
+	}
+	if ax == nil {
+		return "", fmt.Errorf("use: no axiom or lemma named %s", call.Fun)
+	}
+	if len(call.Args) != len(ax.Params) {
+		return "", fmt.Errorf("use %s: %d arguments for %d parameters", ax.Name, len(call.Args), len(ax.Params))
+	}
+	vars := map[string]Term{}
+	for i, p := range ax.Params {
+		t, err := en.Eval(call.Args[i])
+		if err != nil {
+			return "", err
+		}
+		vars[p.Name] = t
+	}
+	en2 := &Env{c: c, vars: vars, cur: en.cur, old: en.old, pkg: ax.PkgPath}
+	return en2.EvalBool(ax.Body)
 }
